@@ -8,8 +8,14 @@ import (
 	"crypto/x509"
 	"errors"
 	"fmt"
+	"go/ast"
+	"go/parser"
+	"go/token"
 	"io"
 	"net/http"
+	"os"
+	"path/filepath"
+	"sort"
 	"strconv"
 	"strings"
 	"sync"
@@ -430,7 +436,11 @@ func TestDrive_C19(t *testing.T) { driveAdapters(t, "C19") }
 func driveAdapters(t *testing.T, prop string) {
 	w := NewCaseWriter(t, prop, "FS.Corr."+prop)
 	w.shardCap = envInt("VERIF_SHARD", 150)
+	w.Header = "Open Scope string_scope.\n"
 	rng := NewRng(envSeed())
+	if prop == "C19" {
+		driveCoreLeaks(t, w, rng)
+	}
 	n := 260
 	if envTier() == "thorough" {
 		n = 6000
@@ -577,5 +587,106 @@ func errCodeHTTP(k string) int {
 		return 6
 	default:
 		return 7
+	}
+}
+
+// ---- C19: spawn sites from the sources, and core-library scenarios under the bubble leak oracle ----
+
+func scanSpawnSites(root string) ([]string, error) {
+	fset := token.NewFileSet()
+	var out []string
+	err := filepath.Walk(root, func(path string, info os.FileInfo, err error) error {
+		if err != nil {
+			return err
+		}
+		rel, _ := filepath.Rel(root, path)
+		if info.IsDir() {
+			if rel == "examples" || rel == "verifharness" || rel == "internal/testutil" || rel == "internal/policytesting" || rel == "test" || strings.HasPrefix(rel, ".") && rel != "." {
+				return filepath.SkipDir
+			}
+			return nil
+		}
+		if !strings.HasSuffix(path, ".go") || strings.HasSuffix(path, "_test.go") {
+			return nil
+		}
+		f, perr := parser.ParseFile(fset, path, nil, 0)
+		if perr != nil {
+			return perr
+		}
+		for _, d := range f.Decls {
+			fd, ok := d.(*ast.FuncDecl)
+			if !ok || fd.Body == nil {
+				continue
+			}
+			ast.Inspect(fd.Body, func(n ast.Node) bool {
+				switch x := n.(type) {
+				case *ast.GoStmt:
+					out = append(out, fmt.Sprintf("(%q, %q, \"go\")", rel, fd.Name.Name))
+				case *ast.CallExpr:
+					if sel, ok := x.Fun.(*ast.SelectorExpr); ok {
+						if id, ok := sel.X.(*ast.Ident); ok && (id.Name == "time" || id.Name == "context") {
+							switch sel.Sel.Name {
+							case "NewTimer", "AfterFunc", "WithCancel", "WithCancelCause", "WithTimeout", "WithDeadline", "NewTicker", "After", "Tick":
+								out = append(out, fmt.Sprintf("(%q, %q, %q)", rel, fd.Name.Name, sel.Sel.Name))
+							}
+						}
+					}
+				}
+				return true
+			})
+		}
+		return nil
+	})
+	sort.Strings(out)
+	var uniq []string
+	for i, s := range out {
+		if i == 0 || s != out[i-1] {
+			uniq = append(uniq, s)
+		}
+	}
+	return uniq, err
+}
+
+func leakOf(f func()) (leak string) {
+	defer func() {
+		if x := recover(); x != nil {
+			leak = fmt.Sprint(x)
+		}
+	}()
+	f()
+	return ""
+}
+
+func driveCoreLeaks(t *testing.T, w *CaseWriter, rng *Rng) {
+	sites, err := scanSpawnSites(repoRoot())
+	if err != nil {
+		t.Fatalf("cannot scan %s: %v", repoRoot(), err)
+	}
+	lit := "[" + strings.Join(sites, "; ") + "]%string"
+	w.Add(func(id int) string { return fmt.Sprintf("CaseSites %d %s", id, lit) }, map[string]any{"spawn_sites": sites}, true, "sites")
+	w.Stat(fmt.Sprintf("spawn_sites=%d", len(sites)))
+	n := 150
+	if envTier() == "thorough" {
+		n = 5000
+	}
+	// executions through random stacks (timeouts, cancellations, rejections), then a virtual hour
+	pf := execProfile{name: "C19", kinds: allKinds, maxDepth: 5, extPct: 25, coopPct: 40, maxReqs: 3}
+	for i := 0; i < n; i++ {
+		inst, reqs := genExecHistory(rng, pf)
+		if !boundedScript(reqs) {
+			continue
+		}
+		leak := leakOf(func() { runHistory(t, inst, reqs) })
+		w.Add(func(id int) string { return fmt.Sprintf("CaseCore %d 1 %s", id, gBool(leak != "")) },
+			map[string]any{"scenario": "executions through a random stack", "requests": len(reqs), "leak": leak}, len(reqs[0].Stack) >= 2, fmt.Sprint("core", i))
+		w.Stat("core=stack")
+	}
+	// hedged executions, incl. cancelled ones and attempts that ignore the cancellation
+	for i := 0; i < n; i++ {
+		h := genHedgeCase(rng)
+		leak := leakOf(func() { runHedge(t, h) })
+		w.Add(func(id int) string { return fmt.Sprintf("CaseCore %d 2 %s", id, gBool(leak != "")) },
+			map[string]any{"scenario": "hedged execution", "max_hedges": h.Max, "external_cancel": h.ExtT > 0, "leak": leak}, h.Max >= 1, fmt.Sprint("hedge", i))
+		w.Stat("core=hedge")
 	}
 }
